@@ -1,5 +1,5 @@
 (* C04 — subsystem-change notifications are delivered exactly once and in order.  Statements only. *)
-From MPD Require Import Bytes Tables BuilderModel LoopModel LoopProofs LoopSpec LoopSpecProofs.
+From MPD Require Import Bytes Tables ParserModel BuilderModel ConnModel ConnProofs LoopModel LoopProofs LoopSpec LoopSpecProofs.
 Open Scope N_scope.
 
 (* for EVERY schedule: the names delivered as events, followed by the names in replies still on
@@ -24,6 +24,31 @@ Theorem c04_no_invention : forall wf p i p' outs n,
   exists r f, i = InRecv (RResp r) /\ single_frame r = Some (inl f) /\ In n (changed_of f).
 Proof. exact events_come_from_reply. Qed.
 
+(* why a receive may be treated as atomic although the loop cancels it inside select!: whatever part
+   of a reply was consumed before the cancellation is parked (builder state + unconsumed bytes) and
+   the next receive continues exactly as if everything had arrived in one piece *)
+Theorem c04_partial_reply_is_kept : forall buf st x st' rest,
+  bparse_all st buf = (st', rest, NeedMore) ->
+  bparse_all st (buf ++ x) = bparse_all st' (rest ++ x).
+Proof.
+  intros buf st x st' rest B.
+  pose proof (bparse_app (length buf) buf st x (le_n _)) as A. unfold app_verdict in A.
+  rewrite B in A. exact A.
+Qed.
+
+(* under fairness every reported change is delivered: in the quiescent state nothing is in flight *)
+Theorem c04_all_delivered_eventually : forall reply_fn sch n s',
+  Forall wf_label sch -> iruns reply_fn n (arun reply_fn sch) s' ->
+  (forall l, internal l = true -> astep reply_fn s' l = s') ->
+  a_delivered s' = a_reported s'.
+Proof.
+  intros reply_fn sch n s' Hw Hr Hmax.
+  pose proof (inv_run reply_fn sch Hw) as HI.
+  destruct (internal_runs_bounded reply_fn n _ s' HI Hr) as [_ (_ & _ & _ & _ & He & _)].
+  destruct (maximal_run_is_quiescent reply_fn n _ s' HI Hr Hmax) as (_ & _ & _ & Hs & _).
+  rewrite Hs in He. cbn in He. rewrite app_nil_r in He. exact He.
+Qed.
+
 Example c04_two_in_one_reply :
   let rf := fun bs => mkResp [mkFrame [] None] None in
   let s := arun rf [LNotify (b "player"); LNotify (b "mixer"); LServe; LRecv] in
@@ -34,3 +59,5 @@ Print Assumptions c04_exactly_once.
 Print Assumptions c04_quiescent.
 Print Assumptions c04_every_changed_field.
 Print Assumptions c04_no_invention.
+Print Assumptions c04_partial_reply_is_kept.
+Print Assumptions c04_all_delivered_eventually.
